@@ -285,15 +285,5 @@ Proof.
       all: try (eapply st_le_trans; [| eapply st_le_trans; [|eassumption]]);
            try apply (st_le_new_arr _ _); try apply (st_le_new_rec _ _);
            try apply st_le_print; try assumption.
-    + intros e st l last r st' H.
-      destruct l as [|[x a|x a|fd|a] t];
-        autorewrite with evaleq in *; unfold alloc in *;
-        repeat grow_step; repeat (grow_leaf IHe IHi IHh); chain.
-      eapply st_le_trans; [|eassumption].
-      eapply st_le_trans; [apply (st_le_alloc st (CInt 0))|apply st_le_set_cell].
-    + intros e st ex cs call r st' H.
-      destruct cs as [|[ex' body] t];
-        autorewrite with evaleq in *;
-        repeat grow_step; repeat (grow_leaf IHe IHi IHh); chain.
-Qed.
+      all: match goal with |- ?G => idtac G end. Show. Abort.
 End Grow.
